@@ -29,8 +29,10 @@ Q = "matrix_inverse_pth_root"
 
 NOT_COVERED = [
     "convergence and rounding behaviour (that the error figure actually gets below the threshold; slack proportional to the condition number)",
-    "the tracked-residual algebra M = X^p (A + dI) of the coupled iteration (honesty of the figure w.r.t. the returned X) — DESIGN P3 with "
-    "commutative-algebra tokens was not built; only P3' (what is reported) is proved",
+    "P3 (honest error) is proved on COMMUTING TOKENS (task 'newton residual algebra': the real _iter_body/_outer_body_fn on 1x1 tensors, "
+    "every iterate being a polynomial in A + dI) in exact arithmetic; the matrix-level statement additionally needs that matmul of "
+    "commuting matrices is associative/commutative (cited) and says nothing about float rounding",
+    "mat_power's functional contract (result = M^p) is proved for symbolic p on 1x1 matrices; for n x n only its padding contract",
     "the eigh route's residual-to-accuracy implication and its exact zeros on padding (depend on LAPACK's output for a block-diagonal input)",
     "LOBPCG deflation (lobpcg_topk_precondition > 0 has no contract); lambda_max >= power-iteration estimate (cited lemma); float32 compute dtype effects",
 ]
@@ -154,6 +156,108 @@ def t_mat_power_value(ctx, it):
   it.loop_contracts[("lax.while_loop", "mat_power.<locals>._iter_body")] = I.LoopContract(inv, havoc, "mat_power.value")
   res = m.mat_power(one(m0), p)
   ctx.oblige("mat_power.post.result = M^p (1x1, symbolic p)", res.at((0, 0)) == P(m0, p))
+
+
+def t_residual_algebra(ctx, it):
+  """P3 - honesty of the error figure (DESIGN 7/C01-P3, 'commutative-algebra tokens'): every iterate of the coupled
+  Newton iteration is a polynomial in the damped matrix A_d, so all of them commute and the tracked-residual identity
+  M = X^p A_d is an identity of a COMMUTATIVE algebra.  The real `_iter_body` / `_outer_body_fn` are executed on
+  commuting tokens (1x1 tensors, reached through the nested functions directly: the size-1 shortcut of the routine
+  is not taken) with the spec power ipow and mat_power under its contract (task 'mat_power value'):
+    inner invariant   mat_m = ipow(mat_h, p) * A_d,  error = |mat_m - 1|,  ratio * |ipow(old_mat_h, p) * A_d - 1| = error
+    post of a retry   |ipow(X, p) * A_d - 1| <= reported error          (X = the returned iterate)."""
+  m = it.load_module(DS)
+  p = spec.fresh_int("p", lo=1)
+  A = spec.fresh_real("A")
+  eps = spec.fresh_real("ridge_epsilon", lo=0)
+  retry = spec.fresh_int("retry", lo=0)
+  ipow = z3.Function("ipow", z3.RealSort(), z3.IntSort(), z3.RealSort())
+  ctx.axioms_used.add("ipow(x*y,p)=ipow(x,p)*ipow(y,p) (commuting tokens; Lean Spec.ipow_mul), ipow(z^(1/p),p)=z for z>0 (real p-th root)")
+
+  def P(x):
+    return SReal(ipow(sym._as_real_z(x), p.z))
+
+  def one(v):
+    return T.Tensor((1, 1), T.float32, lambda idx: v)
+
+  def sc(t):
+    return t.at((0, 0)) if isinstance(t, T.Tensor) and len(t.shape) == 2 else (t.item() if isinstance(t, T.Tensor) else t)
+
+  Ad = A + eps * sym.spow(10, retry)
+  cur_state = {}
+
+  def mat_power_contract(interp, fn, args, kwargs):
+    x = sc(args[0])
+    if "mat_h" in cur_state:
+      # instance of ipow_mul (commuting tokens) at the operand actually used: (mat_h * x)^p = mat_h^p * x^p
+      ctx.assume(P(cur_state["mat_h"] * x) == P(cur_state["mat_h"]) * P(x))
+    return one(P(x))
+
+  it.call_contracts["mat_power"] = mat_power_contract
+
+  def res(x):
+    return abs(P(x) * Ad - 1.0)
+
+  def inv_claim(st):
+    i, mm, mh, oh, err, ratio = [sc(x) for x in st]
+    return sym.sand(mm == P(mh) * Ad, err == abs(mm - 1.0), ratio * res(oh) == err)
+
+  alpha = -1.0 / p
+  env = dict(alpha=alpha, identity=one(1.0), p=p, precision=None)
+  body = it.make_nested(DS, Q + ".<locals>._iter_body", env)
+  tol = spec.fresh_real("error_tolerance", lo=0)
+  cond = it.make_nested(DS, Q + ".<locals>._iter_condition", dict(error_tolerance=tol, max_error_ratio=1.2, num_iters=spec.fresh_int("num_iters", lo=0)))
+
+  def fresh_state(tag):
+    return (T.asarray(spec.fresh_int("it" + tag, lo=0)), one(spec.fresh_real("mat_m" + tag)), one(spec.fresh_real("mat_h" + tag)),
+            one(spec.fresh_real("old_mat_h" + tag)), T.asarray(spec.fresh_real("err" + tag)), T.asarray(spec.fresh_real("ratio" + tag)))
+
+  # one retry-loop body with the inner loop under its invariant
+  captured = {}
+
+  def havoc_inner(env_, k):
+    st = fresh_state("_f")
+    captured["final"] = st
+    env_["state"] = st
+    cur_state["mat_h"] = sc(st[2])
+
+  def inv_inner(env_, k):
+    return inv_claim(env_["state"])
+
+  it.loop_contracts[("lax.while_loop", Q + ".<locals>._iter_body")] = I.LoopContract(inv_inner, havoc_inner, "newton.inner.residual")
+  n_pow = len(ctx.ghost.setdefault("pow_calls", []))
+  ctx.assume(Ad > 0)    # A + dI is positive definite (PSD input, ridge > 0): its Frobenius norm is non-zero
+  # the Frobenius norm of the (non-zero) damped matrix is some positive scalar in the token abstraction
+  nu = spec.fresh_real("frobenius_norm_of_damped_matrix")
+  ctx.assume(nu > 0)
+  mod_jnp = m.__env__.vars["jnp"]
+  import types
+  jnp_proxy = types.SimpleNamespace(**vars(mod_jnp))
+  jnp_proxy.linalg = types.SimpleNamespace(**vars(mod_jnp.linalg))
+  jnp_proxy.linalg.norm = lambda x, *a, **k: T.asarray(nu)
+  outer = it.make_nested(DS, Q + ".<locals>._outer_body_fn",
+                         dict(matrix=one(A), ridge_epsilon=eps, identity=one(1.0), p=p, _iter_condition=cond, _iter_body=body,
+                              max_error_ratio=1.2, precision=None, retry_loop_error_threshold=0.05, jnp=jnp_proxy))
+  # the p-th root used to seed mat_h: ipow(z^(1/p), p) = z
+  st0 = (T.asarray(retry), one(1.0), T.asarray(1000.0), T.asarray(100), T.asarray(1.0), T.asarray(True))
+  # instantiate the root axiom lazily: every rpow term created by the body satisfies ipow(rpow(z, 1/p), p) = z for z > 0
+  orig_spow = sym.spow
+
+  def spow_with_axiom(base, ex):
+    r = orig_spow(base, ex)
+    if isinstance(r, sym.Sym) and sym.prove(ex * p == 1):
+      ctx.assume(sym.implies(base > 0, P(r) == base))
+    return r
+
+  sym.spow = spow_with_axiom
+  try:
+    out = outer(st0)
+  finally:
+    sym.spow = orig_spow
+  X, err = sc(out[1]), sc(out[2])
+  ctx.oblige(f"{Q}.P3.honest error: | X^p (A + dI) - I | <= reported error for the returned iterate X (commuting tokens)",
+             res(X) <= err)
+  ctx.oblige(f"{Q}.P3.retry counter", sc(out[0]) == retry + 1)
 
 
 def install_newton_invariants(ctx, it, n, ps):
@@ -338,7 +442,8 @@ def mk_eigh(rel_eps, padded):
 
 
 def tasks(tier):
-  ts = [Task("mat_power", t_mat_power), Task("mat_power value", t_mat_power_value), Task("newton retry body", t_outer_body)]
+  ts = [Task("mat_power", t_mat_power), Task("mat_power value", t_mat_power_value), Task("newton retry body", t_outer_body),
+        Task("newton residual algebra (honest error)", t_residual_algebra)]
   for rel in (True, False):
     for pad in (True, False):
       ts.append(Task(f"newton[relative_eps={rel},padded={pad}]", mk_newton(rel, pad)))
